@@ -119,6 +119,9 @@ var errExpr = map[string]string{
 	"underscore-variadic":    `gjoin("-", "a", _)`,
 	"argcount-variadic":      `gjoin()`,
 	"func":                   "fail()",
+	"func-wrapsrt":           "gwrapsrt()",   // a function reporting an error that wraps a runtime error it caught itself
+	"argcount-jetfunc0":      "gnoargs(1)",   // a jet.Func that accepts no arguments (RequireNumOfArguments(name, 0, 0))
+	"argcount-jetfunc0-piped": "1 | gnoargs",
 	"panic":                  "gpanic()", // a user function panicking with a value that is not an error: escapes Execute
 	"rterror":                "grterror()", // a user function hitting a Go runtime error (write to a nil map): escapes Execute too
 	"len-kind":               "len(5)",
@@ -180,6 +183,10 @@ func (c *concretizer) expr(e xExpr) string {
 		return "gnil"
 	case "bcall":
 		return e.A + `("AbC")`
+	case "bpipe":
+		return `"AbC" | ` + e.A
+	case "bcolon":
+		return e.A + `: "AbC"`
 	case "fail":
 		return "fail()"
 	case "err":
@@ -565,7 +572,7 @@ func atomValue(v string) interface{} {
 }
 
 // classes whose error is raised by a called Go function (no file:line by contract)
-var calleeClasses = map[string]bool{"func": true, "panic": true, "rterror": true, "template-exec": true, "yieldarg": true, "len-kind": true, "ints-range": true,
+var calleeClasses = map[string]bool{"func": true, "func-wrapsrt": true, "argcount-jetfunc0": true, "argcount-jetfunc0-piped": true, "panic": true, "rterror": true, "template-exec": true, "yieldarg": true, "len-kind": true, "ints-range": true,
 	"argcount-jetfunc": true, "argcount-piped-jetfunc": true, "underscore-jetfunc": true, "api-assign": true, "api-block": true}
 
 type xObs struct {
@@ -627,6 +634,19 @@ func xBuildOpt(c *xCase, esc jet.SafeWriter, useEsc bool, html bool) (*xWorld, e
 	set := jet.NewSet(loader, opts...)
 	set.AddGlobal("fail", func() string { panic(errors.New("injected failure")) })
 	set.AddGlobal("gpanic", func() string { panic("injected panic with a non-error value") })
+	set.AddGlobal("gwrapsrt", func() (s string) {
+		defer func() {
+			if r := recover(); r != nil {
+				panic(fmt.Errorf("injected failure: lookup failed: %w", r.(error)))
+			}
+		}()
+		var xs []string
+		return xs[3]
+	})
+	set.AddGlobalFunc("gnoargs", func(a jet.Arguments) reflect.Value {
+		a.RequireNumOfArguments("gnoargs", 0, 0)
+		return reflect.ValueOf("noargs")
+	})
 	set.AddGlobal("grterror", func() string { var m map[string]int; m["x"] = 1; return "" })
 	set.AddGlobal("usersw", jet.SafeWriter(func(w io.Writer, b []byte) {
 		w.Write([]byte("{"))
@@ -1048,10 +1068,70 @@ func printedForm(v string) string {
 	return "?"
 }
 
+// c01Computed: values COMPUTED by built-ins and operators from data with special bytes are values like any other.
+// What each action renders under an escaping Set is the escaper applied once to what the same action renders under a
+// Set without escaper (that rendering is the value's printed form).
+func c01Computed() *Result {
+	exprs := []string{`dump("v")`, `dump("v", "w")`, `dump()`, `dump(1)`, `lower(v)`, `v | upper`, `repeat(v, 2)`, `replace(v, "&", "&&", -1)`,
+		`trimSpace(v)`, `split(v, "&")[0]`, `map("k", v)["k"]`, `map("k", v).k`, `slice(v, w)[1]`, `html(v)`, `url(v)`, `v + w`, `v ? v : w`,
+		`isset(v) ? v : ""`, `v | repeat: 2`, `st.S`, `st.M()`, `json(v)`}
+	type holder struct{ S string }
+	render := func(opts []jet.Option, expr string) (string, error) {
+		set := jet.NewSet(jet.NewInMemLoader(), opts...)
+		t, err := set.Parse("/c.jet", "[{{ "+expr+" }}]")
+		if err != nil {
+			return "", err
+		}
+		vars := jet.VarMap{}
+		vars.Set("v", `<a href='x'>&"q"`).Set("w", "<w&>").Set("st", c01Holder{S: "<s&'>"})
+		var b bytes.Buffer
+		err = safeExecute(t, &b, vars, nil)
+		return b.String(), err
+	}
+	_ = holder{}
+	for _, expr := range exprs {
+		plain, err := render([]jet.Option{jet.WithSafeWriter(nil)}, expr)
+		if err != nil || len(plain) < 2 {
+			continue // not evaluable on this tree: nothing to compare
+		}
+		inner := plain[1 : len(plain)-1]
+		var hb bytes.Buffer
+		template.HTMLEscape(&hb, []byte(inner))
+		wantHTML := "[" + hb.String() + "]"
+		gotHTML, err1 := render(nil, expr)
+		gotCustom, err2 := render([]jet.Option{jet.WithSafeWriter(bracketEscaper)}, expr)
+		j := func(x string) string { return strings.ReplaceAll(x, "»«", "") }
+		wantCustom := "[«" + inner + "»]"
+		if inner == "" {
+			wantCustom = "[]"
+		}
+		if err1 != nil || gotHTML != wantHTML {
+			return &Result{Sig: map[string]interface{}{"kind": "computed", "escaper": "html", "expr": expr, "tag": "", "shape": "", "stage": ""}, Key: "computed",
+				Observed: gotHTML, Expected: wantHTML,
+				Detail: fmt.Sprintf("{{ %s }} renders %q without escaper; the default Set rendered %q (err %v), the escaper applied once gives %q", expr, plain, gotHTML, err1, wantHTML)}
+		}
+		if err2 != nil || (j(gotCustom) != wantCustom && !(inner == "" && j(gotCustom) == "[«»]")) {
+			return &Result{Sig: map[string]interface{}{"kind": "computed", "escaper": "custom", "expr": expr, "tag": "", "shape": "", "stage": ""}, Key: "computed",
+				Observed: gotCustom, Expected: wantCustom,
+				Detail: fmt.Sprintf("{{ %s }} renders %q without escaper; a Set with a bracketing escaper rendered %q (err %v), the escaper applied once gives %q", expr, plain, gotCustom, err2, wantCustom)}
+		}
+	}
+	return nil
+}
+
+type c01Holder struct{ S string }
+
+func (h c01Holder) M() string { return "<m" + h.S + ">" }
+
 func c01Replay(i int, raw json.RawMessage) Result {
 	var v xVec
 	if err := json.Unmarshal(raw, &v); err != nil {
 		return Result{Detail: "bad vector: " + err.Error()}
+	}
+	if i == 0 {
+		if r := c01Computed(); r != nil {
+			return *r
+		}
 	}
 	htmlTexts = true
 	defer func() { htmlTexts = false }()
